@@ -66,14 +66,21 @@ def budget(tier):
     return {'cases': 500000, 'wall_cap_s': 1500}
 
 
+TEMP_PAIRS = [(n, i) for n in TEMP_NAMES
+              for i in range(len(RECIPES[n].variants))]
+
+
 def gen_case(rng, tier, g):
+    vi0 = None
     maxrows = 8 if tier == 'quick' else 10
     if rng.random() < 0.5:
         name = rng.choice(HOT)
     else:
-        name = TEMP_NAMES[g % len(TEMP_NAMES)]
+        name, vi0 = TEMP_PAIRS[g % len(TEMP_PAIRS)]
     rec = RECIPES[name]
     stack = [[name, rng.randrange(len(rec.variants))]]
+    if vi0 is not None:
+        stack[0][1] = vi0
     if rec.stackable and rng.random() < 0.25:
         n2 = rng.choice(STACKABLE + ['sort', 'sort', 'distinct'])
         stack.append([n2, rng.randrange(len(RECIPES[n2].variants))])
